@@ -81,6 +81,17 @@ type vfC11Il struct {
 	Rep1   []int   `json:"rep1"`   // ... and after it (observation only)
 }
 
+// vfC11Mid: a node is reported down (status event: state + HostDown) while a query plan is being consumed - after
+// First was offered and before Rest; Victim had not been offered yet and was up.
+type vfC11Mid struct {
+	Q      int   `json:"q"`
+	Ks     int   `json:"ks"`
+	First  []int `json:"first"`
+	Victim int   `json:"victim"`
+	Rest   []int `json:"rest"`
+	Capped bool  `json:"capped"`
+}
+
 type vfC11Case struct {
 	ID     int          `json:"id"`
 	W      vfC11World   `json:"w"`
@@ -101,6 +112,7 @@ type vfC11Vector struct {
 	Il     []vfC11Il    `json:"il"`
 	PIl    int          `json:"pil"` // 1-based index of the interleaved group that panicked (0: none)
 	Xov    int          `json:"xov"` // executor runs: calls that entered NextHost while another call was inside
+	Mid    []vfC11Mid   `json:"mid,omitempty"`
 }
 
 // vfC11Query is a minimal ExecutableQuery: only the routing key and the keyspace matter
@@ -411,7 +423,7 @@ func vfC11PanicClass(msg, dflt string) string {
 
 // vfC11Run replays the history and the pick groups of one case on fresh real objects.
 func vfC11Run(c *vfC11Case) (v vfC11Vector) {
-	v = vfC11Vector{ID: c.ID, W: c.W, Hist: c.Hist, Groups: []vfC11Group{}, PClass: "none", Il: []vfC11Il{}}
+	v = vfC11Vector{ID: c.ID, W: c.W, Hist: c.Hist, Groups: []vfC11Group{}, PClass: "none", Il: []vfC11Il{}, Mid: []vfC11Mid{}}
 	if c.W.Strat2 == "" {
 		c.W.Strat2 = "none"
 	}
@@ -508,6 +520,48 @@ func vfC11Run(c *vfC11Case) (v vfC11Vector) {
 			out.run()
 		}()
 		v.Il = append(v.Il, *out.rec)
+		if v.PClass != "none" {
+			return v
+		}
+	}
+	// last (it changes nothing that was recorded above): a host goes down in the middle of a plan
+	byID := map[int]*HostInfo{}
+	for h, id := range e.idx {
+		byID[id] = h
+	}
+	for gi, g := range c.Groups {
+		if gi >= 3 {
+			break
+		}
+		if g.Ks == 0 {
+			g.Ks = 1
+		}
+		func() {
+			defer func() {
+				if r := recover(); r != nil {
+					v.PMsg = fmt.Sprint(r)
+					v.PClass = vfC11PanicClass(v.PMsg, "pick")
+					v.PGrp = gi + 1
+				}
+			}()
+			full, capped := e.drain(e.policy.Pick(e.queryKs(g.Q, g.Ks)))
+			if capped || len(full) < 2 || full[len(full)-1] == 0 {
+				return
+			}
+			victim := full[len(full)-1]
+			next := e.policy.Pick(e.queryKs(g.Q, g.Ks))
+			sh := next()
+			if sh == nil || sh.Info() == nil || e.idx[sh.Info()] == victim || byID[victim] == nil || !byID[victim].IsUp() {
+				return
+			}
+			m := vfC11Mid{Q: g.Q, Ks: g.Ks, First: []int{e.idx[sh.Info()]}, Victim: victim}
+			byID[victim].setState(NodeDown)
+			e.policy.HostDown(byID[victim])
+			m.Rest, m.Capped = e.drain(next)
+			byID[victim].setState(NodeUp)
+			e.policy.HostUp(byID[victim])
+			v.Mid = append(v.Mid, m)
+		}()
 		if v.PClass != "none" {
 			return v
 		}
